@@ -314,6 +314,11 @@ class Ctx:
         key = name of the known finding whose classifier matches, or None."""
         self.spec_failures.append({"case": case, "observed": observed, "why": why, "key": key})
 
+    def enough_failures(self, n=3):
+        """streams stop early once a few NEW (not known-finding) property failures are in hand"""
+        open_keys = {f["key"] for f in self.known if f.get("status") == "open"}
+        return len([f for f in self.spec_failures if f["key"] not in open_keys]) >= n
+
     def replayed(self, key, still_fails, detail=None):
         self.known_replayed[key] = {"still_fails": bool(still_fails), "detail": detail}
 
@@ -440,8 +445,8 @@ class Ctx:
             # one replay file per distinct reason (up to 5)
             seen = set()
             for i, f in enumerate(viol):
-                sig = f["why"][:80]
-                if sig in seen or len(seen) >= 5:
+                sig = f["why"][:40]
+                if sig in seen or len(seen) >= 3:
                     continue
                 seen.add(sig)
                 path = replay_dir / f"{self.prop}-{self.seed}-{len(seen)}.json"
